@@ -49,6 +49,9 @@ type workerSummary struct {
 	Samples      []any          `json:"samples"`
 	WallS        float64        `json:"wall_s"`
 	HitDeadline  bool           `json:"hit_deadline"`
+	// Fingerprint is the XOR over all cases of hash(run index, shape, verdict): two
+	// executions of the same seed must produce the same value (determinism self-test).
+	Fingerprint uint64 `json:"fingerprint"`
 }
 
 type workerViolation struct {
@@ -85,25 +88,38 @@ func scratchRoot() string {
 }
 
 // Main is the entry point shared by every check binary.
-func Main() {
-	var (
-		prop    = flag.String("prop", "", "property id")
-		tier    = flag.String("tier", "", "quick|thorough")
-		replay  = flag.String("replay", "", "replay file")
-		worker  = flag.Bool("worker", false, "internal: run as worker")
-		wi      = flag.Int("w", 0, "internal: worker index")
-		nw      = flag.Int("nw", 1, "internal: worker count")
-		seedF   = flag.String("seed", "", "seed (default $VERIF_SEED or 1)")
-		runs    = flag.Int("runs", 0, "override number of runs")
-		wall    = flag.Int("wall", 0, "override wall budget (s)")
-		dump    = flag.Int("dump", -1, "print the generated case with this run index and exit")
-		one     = flag.Int("one", -1, "execute only this run index, verbosely")
-		list    = flag.Bool("list", false, "list properties")
-		workers = flag.Int("workers", 0, "override worker count")
-		helper  = flag.String("helper", "", "internal: helper mode")
-	)
+// Flags are package-level so that a test binary (the E-conc checks need a
+// *testing.T for testing/synctest) can let the testing package parse them.
+var (
+	prop    = flag.String("prop", "", "property id")
+	tier    = flag.String("tier", "", "quick|thorough")
+	replay  = flag.String("replay", "", "replay file")
+	worker  = flag.Bool("worker", false, "internal: run as worker")
+	wi      = flag.Int("w", 0, "internal: worker index")
+	nw      = flag.Int("nw", 1, "internal: worker count")
+	seedF   = flag.String("seed", "", "seed (default $VERIF_SEED or 1)")
+	runs    = flag.Int("runs", 0, "override number of runs")
+	wall    = flag.Int("wall", 0, "override wall budget (s)")
+	dump    = flag.Int("dump", -1, "print the generated case with this run index and exit")
+	one     = flag.Int("one", -1, "execute only this run index, verbosely")
+	list    = flag.Bool("list", false, "list properties")
+	workers = flag.Int("workers", 0, "override worker count")
+	helper  = flag.String("helper", "", "internal: helper mode")
+)
 
-	flag.Parse()
+// SelfArgs are prepended to the arguments whenever this binary starts itself
+// (a test binary needs -test.run etc.).
+var SelfArgs []string
+
+func selfCommand(exe string, args ...string) *exec.Cmd {
+	return exec.Command(exe, append(append([]string{}, SelfArgs...), args...)...)
+}
+
+func Main() {
+	if !flag.Parsed() {
+		flag.Parse()
+	}
+
 	log.SetOutput(io.Discard) // akita reports refusals with log.Panic; the panic value is what matters
 
 	if *helper != "" {
@@ -378,6 +394,8 @@ func workerMain(p *erased, t Tier, seed uint64, b Budget, wi, nw int) int {
 			sum.InconclWhy[out.Inconclusive]++
 		}
 
+		sum.Fingerprint ^= Hash64(fmt.Sprint(idx, "|", out.Shape, "|", out.Violation != nil, "|", out.Inconclusive))
+
 		if out.Shape != "" {
 			h := Hash64(out.Shape)
 			if len(allShapes) < 1<<20 {
@@ -600,7 +618,7 @@ func parentMain(p *erased, t Tier, seed uint64, b Budget, workersOverride int) i
 		go func(i int) {
 			defer wg.Done()
 
-			cmd := exec.Command(exe, "-worker", "-prop", p.ID, "-tier", string(t),
+			cmd := selfCommand(exe, "-worker", "-prop", p.ID, "-tier", string(t),
 				"-seed", strconv.FormatUint(seed, 10), "-w", strconv.Itoa(i),
 				"-nw", strconv.Itoa(nw), "-runs", strconv.Itoa(b.Runs),
 				"-wall", strconv.Itoa(b.WallS))
@@ -688,6 +706,7 @@ func parentMain(p *erased, t Tier, seed uint64, b Budget, workersOverride int) i
 		agg.Steps += s.Steps
 		agg.AllShapes += s.AllShapes
 		agg.HitDeadline = agg.HitDeadline || s.HitDeadline
+		agg.Fingerprint ^= s.Fingerprint
 
 		for k, v := range s.Faults {
 			agg.Faults[k] += v
@@ -762,8 +781,8 @@ func parentMain(p *erased, t Tier, seed uint64, b Budget, workersOverride int) i
 		writeEvidence(p, t, seed, &agg, len(shapes), nw, wallS, realViolations, known)
 	}
 
-	fmt.Printf("summary property=%s evaluations=%d distinct_nontrivial=%d inconclusive=%d violations=%d known=%d wall=%.1fs\n",
-		p.ID, agg.Evaluations, len(shapes), agg.Inconclusive, realViolations, len(known), wallS)
+	fmt.Printf("summary property=%s evaluations=%d distinct_nontrivial=%d inconclusive=%d violations=%d known=%d wall=%.1fs fingerprint=%016x\n",
+		p.ID, agg.Evaluations, len(shapes), agg.Inconclusive, realViolations, len(known), wallS, agg.Fingerprint)
 
 	if realViolations > 0 {
 		return 1
@@ -792,7 +811,7 @@ func tail(s string, n int) string {
 }
 
 func freshReplay(exe, path string) (int, string) {
-	cmd := exec.Command(exe, "-replay", path)
+	cmd := selfCommand(exe, "-replay", path)
 
 	var buf bytes.Buffer
 
@@ -815,7 +834,7 @@ func freshReplay(exe, path string) (int, string) {
 // RunFresh executes this binary's helper in a fresh process and returns stdout.
 func RunFresh(env *Env, helper string, stdin []byte, extraEnv []string, args ...string) ([]byte, error) {
 	a := append([]string{"-helper", helper}, args...)
-	cmd := exec.Command(env.Exe, a...)
+	cmd := selfCommand(env.Exe, a...)
 	cmd.Stdin = bytes.NewReader(stdin)
 	cmd.Env = append(os.Environ(), extraEnv...)
 
